@@ -1229,6 +1229,9 @@ impl<Alloc: BrotliAlloc> BrotliEncoderStateStruct<Alloc> {
         self.copy_input_to_ring_buffer(dict_size, dict);
         self.last_flush_pos_ = dict_size as u64;
         self.last_processed_pos_ = dict_size as u64;
+        // the meta-block logger tells backward copies from static dictionary references by the
+        // number of bytes that precede a command, and those include the custom dictionary
+        self.recoder_state.num_bytes_encoded = dict_size;
         if dict_size > 0 {
             self.prev_byte_ = dict[dict_size.wrapping_sub(1)];
         }
